@@ -1385,13 +1385,34 @@ fn preprocess_initial_file(
 
     // Add initial macros
     for (name, value) in initial_defines {
-        let tokens = match TokenStream::new(value, SourceLocation::UNKNOWN)
+        // Register the value as a source file so the tokens have real locations like the tokens of a #define line
+        // Token concatenation reads the text of the tokens back from the source manager
+        let file_id = file_loader
+            .source_manager
+            .add_file(FileName(format!("<define {name}>")), value.to_string());
+        let base_location = file_loader
+            .source_manager
+            .get_source_location_from_file_offset(file_id, StreamLocation(0));
+
+        let tokens = match TokenStream::new(value, base_location)
             .suppress_trailing_endline()
             .read_to_end()
         {
             Ok(tokens) => tokens,
             Err(_) => return Err(PreprocessError::InvalidDefine(SourceLocation::UNKNOWN)),
         };
+
+        // A ## in the value is a pending concat operation - the same as in the body of a #define line
+        let tokens = trim_whitespace(&tokens)
+            .iter()
+            .map(|t| {
+                if t.0 == Token::HashHash {
+                    PreprocessToken(Token::Concat, t.1.clone())
+                } else {
+                    t.clone()
+                }
+            })
+            .collect::<Vec<_>>();
 
         macros.push(Macro {
             name: name.to_string(),
